@@ -63,9 +63,20 @@ where
     }
 
     fn is_bareword(s: &str) -> bool {
+        // The tokenizer matches NULL, true and false as prefixes before it tries a
+        // bareword. Only the booleans themselves are valid as bare field names.
+        if s.starts_with("NULL") {
+            return false;
+        }
+        for kw in ["true", "false"] {
+            if s.starts_with(kw) && s != kw {
+                return false;
+            }
+        }
         match s.chars().nth(0) {
             Some(c) => {
-                if !(c.is_ascii_alphabetic() || c == '_') {
+                // A bareword token has to start with a letter.
+                if !c.is_ascii_alphabetic() {
                     return false;
                 }
             }
